@@ -54,6 +54,38 @@ update = Contract(
              ("never-decrease", "self.ghost_process_time >= old(self.ghost_process_time) and self.ghost_run_time >= old(self.ghost_run_time)"),
              ("state-untouched", f"{S} is old({S})")])
 
+# ---- (a') the gate in Engine.tick: the clocks are only advanced for an active run -------------------------------------------------------
+def update_call(ctx, args, kwargs):
+    """self.update_calculated_tags(...) in Engine.tick: allowed only while a run is active (`_runstate_started`), whatever the System State
+    tag says (set_error_state can set it to Paused without a run)"""
+    ctx.check("clocks-advanced-only-while-a-run-is-active", ctx.spec_bool("self._runstate_started"), "call-site")
+    ctx.ghost["clock_updates"] = ctx.ghost.get("clock_updates", 0) + 1
+    return ctx.none()
+
+
+update_call.modifies = []
+
+
+def tick_exit(ctx, kind, result):
+    ctx.check("clocks-advanced-at-most-once-per-tick", z3.BoolVal(ctx.ghost.get("clock_updates", 0) <= 1), "postcondition")
+
+
+def opaque_component(ctx, args, kwargs):
+    """component call in Engine.tick (hardware, tracking, interpreter, command manager, error state): may change anything but is not followed here"""
+    return ctx.fresh("component_result", None)
+
+
+opaque_component.modifies = None
+tick_gate = Contract(
+    target=E + "tick", types={"self": "Engine", "tick_time": "float", "increment_time": "float", "Engine._runstate_started": "bool",
+                              "Engine._runstate_paused": "bool", "Engine._runstate_holding": "bool", "Engine._runstate_stopping": "bool",
+                              "Engine._tick_number": "int"},
+    calls={"self.update_calculated_tags": update_call, "self.interpreter.tick": opaque_component, "self.set_error_state": opaque_component,
+           "self._command_manager.tick": opaque_component, "self.read_process_image": opaque_component, "self.write_process_image": opaque_component,
+           "self.notify_tag_updates": opaque_component, "self.tracking.tick": opaque_component, "self.uod.hwl.tick": opaque_component,
+           "self._tick_timer.stop": opaque_component, "with self._lock": None},
+    raises=None, on_exit=tick_exit, options={"lenient": True, "protected_prefixes": (), "opaque_subscript": True, "default_unroll": 1})
+
 # ---- (b) zero at run start ----------------------------------------------------------------------------------------------------
 ZERO = f"{EN}.ghost_run_time == 0.0 and {EN}.ghost_process_time == 0.0"
 start = [c for c in c06.CONTRACTS if c.target.endswith("StartEngineCommand._run")][0]
@@ -140,9 +172,9 @@ errj.ensures = [J_SELF]
 
 start7.variant = "C07"
 restart7.variant = "C07"
-CONTRACTS = [update, start7, restart7, block_tick, block_rsc, scope_tick, scope_rsc] + jcontracts + [errj] + \
+CONTRACTS = [update, tick_gate, start7, restart7, block_tick, block_rsc, scope_tick, scope_rsc] + jcontracts + [errj] + \
     [c for c in c06.CONTRACTS if c.target.endswith(("UnpauseEngineCommand._run", "UnholdEngineCommand._run")) and not c.variant]
-TARGETS = [c.key for c in [update, start7, restart7, block_tick, block_rsc, scope_tick, scope_rsc] + jcontracts + [errj]]
+TARGETS = [c.key for c in [update, tick_gate, start7, restart7, block_tick, block_rsc, scope_tick, scope_rsc] + jcontracts + [errj]]
 LEVEL = "other"
 BOUNDED = ["BlockTimeTag.on_tick: at most 3 nested blocks and ScopeTimeTag.on_tick: at most 3 open scopes (loops unrolled); timed Pause/Hold waits are not followed in the J variants (only the segment up to the first yield)"]
 TRUSTED = c06.TRUSTED + ["EventEmitter.emit_on_tick / emit_on_runstate_change call every listener's handler once (dispatch loops not under contract)",
